@@ -83,3 +83,55 @@ package lib
 //@ ghost var lastwriteoff int   -- offset of the most recent writeAt
 //@ ghost var lastwritelen int   -- length of the most recent writeAt
 //@ ghost var nsyncs int         -- number of successful fdatasync calls
+//@ ghost var lastwritearr int   -- backing array of the buffer of the most recent writeAt
+
+// ---------------------------------------------------------------- process exit status (C19)
+//@ ghost var execok bool        -- the most recent cobra Execute returned nil
+
+//@ func github.com/spf13/cobra.(*Command).Execute
+//@   trusted
+//@   returns (err)
+//@   ensures execok == (err == nil)
+//@   modifies execok
+
+//@ func os.Exit
+//@   trusted
+//@   requires [status] execok || code != 0
+//@   ensures false
+//@   modifies nothing
+
+// ---------------------------------------------------------------- advisory file locks (A-os-flock)
+//@ ghost var lastflockop int     -- operation argument of the most recent flock(2)
+//@ ghost var flockok bool        -- the most recent flock(2) returned nil
+//@ ghost var nflock int          -- number of flock(2) calls
+
+//@ func syscall.Flock
+//@   trusted
+//@   returns (err)
+//@   ensures lastflockop == how && flockok == (err == nil) && nflock == old(nflock) + 1
+//@   modifies lastflockop, flockok, nflock
+
+//@ func os.(*File).Fd
+//@   trusted
+//@   modifies nothing
+
+//@ func os.(*File).Close
+//@   trusted
+//@   returns (err)
+//@   modifies nothing
+
+//@ func os.(*File).Name
+//@   trusted
+//@   modifies nothing
+
+//@ func time.Sleep
+//@   trusted
+//@   modifies nothing
+
+//@ ghost field sync.Once.done bool
+
+//@ func sync.(*Once).Do
+//@   trusted
+//@   invokes f
+//@   ensures invoked(f) == !old(o.done) && o.done
+//@   modifies o.done
